@@ -11,6 +11,7 @@
 #include <iostream>
 #include <stdexcept>
 #include <type_traits>
+#include <memory>
 
 namespace H {
 
